@@ -11,18 +11,20 @@ import (
 )
 
 type fnDecl struct {
-	p        *pkgInfo
-	rel      string
-	fd       *ast.FuncDecl
-	fn       *types.Func
-	key      string
-	name     string // as printed: "(*T).M" or "F"
-	strict   bool
-	tr       *bodyTr
-	flags    []bool
-	excReg   map[int]string // parameter index -> reason it may be written/kept (strict mode)
-	viewWhy  string
-	diag     []string
+	p          *pkgInfo
+	rel        string
+	fd         *ast.FuncDecl
+	fn         *types.Func
+	key        string
+	name       string // as printed: "(*T).M" or "F"
+	strict     bool
+	tr         *bodyTr
+	flags      []bool
+	excReg     map[int]string // parameter index -> reason it may be written/kept (strict mode)
+	viewWhy    string
+	helperOnly bool // takes no byte-carrying type itself, only interface values
+	isLit      bool
+	diag       []string
 }
 
 // ---- documented exceptions of the API discipline -------------------------------------------------
@@ -62,9 +64,8 @@ var docExceptions = map[string]struct {
 	"(streamingaead/subtle.aesGCMHKDFSegmentDecrypter).DecryptSegmentWithDst": {[]int{1}, true, "implements noncebased's segmentDecrypterWithDst: the result is appended to the caller-supplied dst by contract"},
 	"(streamingaead/subtle.aesCTRHMACSegmentEncrypter).EncryptSegmentWithDst": {[]int{1}, true, "implements noncebased's segmentEncrypterWithDst: the result is written into the caller-supplied dst by contract"},
 	"(streamingaead/subtle.aesCTRHMACSegmentDecrypter).DecryptSegmentWithDst": {[]int{1}, true, "implements noncebased's segmentDecrypterWithDst: the result is written into the caller-supplied dst by contract"},
-	"signature/subtle.NewED25519SignerFromPrivateKey":                           {[]int{0}, false, "takes a POINTER to the caller's ed25519.PrivateKey and keeps it: sharing is what the signature says"},
-	"signature/subtle.NewED25519VerifierFromPublicKey":                          {[]int{0}, false, "takes a POINTER to the caller's ed25519.PublicKey and keeps it: sharing is what the signature says"},
-	"signature/subtle.NewED25519Verifier":                                       {[]int{0}, false, "KNOWN FINDING (not a documented exception): keeps the caller's public-key slice without a copy; mutating it afterwards makes Verify reject valid signatures"},
+	"signature/subtle.NewED25519SignerFromPrivateKey":                         {[]int{0}, false, "takes a POINTER to the caller's ed25519.PrivateKey and keeps it: sharing is what the signature says"},
+	"signature/subtle.NewED25519VerifierFromPublicKey":                        {[]int{0}, false, "takes a POINTER to the caller's ed25519.PublicKey and keeps it: sharing is what the signature says"},
 }
 
 func (d *fnDecl) exceptions() {
@@ -96,8 +97,10 @@ func translateBody(d *fnDecl) *bodyTr {
 	t := &bodyTr{p: d.p, fd: d.fd, fn: d.fn, strict: d.strict, viewOK: d.viewWhy != "", regOf: map[types.Object]int{},
 		closures: map[types.Object]*ast.FuncLit{}, tracked: map[types.Object]bool{}}
 	sig := d.fn.Type().(*types.Signature)
-	if sig.TypeParams().Len() > 0 || sig.RecvTypeParams().Len() > 0 {
-		t.fail("generic function")
+	if (sig.TypeParams().Len() > 0 || sig.RecvTypeParams().Len() > 0) && d.strict {
+		// an internal generic helper is translated with its type parameters standing for types that carry
+		// no bytes (every call site is checked to instantiate it that way); an exported one is not
+		t.fail("generic API function")
 		return t
 	}
 	var entry []*node
@@ -295,6 +298,16 @@ func considered(sig *types.Signature) bool {
 	return false
 }
 
+func hasIfaceParam(sig *types.Signature) bool {
+	for i := 0; i < sig.Params().Len(); i++ {
+		t := sig.Params().At(i).Type()
+		if types.IsInterface(t) && t.String() != "error" {
+			return true
+		}
+	}
+	return false
+}
+
 func scanBodies(root string) []*fnDecl {
 	var decls []*fnDecl
 	var pkgsSeen []*pkgInfo
@@ -333,8 +346,18 @@ func scanBodies(root string) []*fnDecl {
 		}
 	}
 	// keys need localPath complete
+	relOf := map[*pkgInfo]string{}
+	for _, d := range decls {
+		relOf[d.p] = d.rel
+	}
 	for _, p := range pkgsSeen {
 		markIfaceConversions(p)
+		collectFuncValues(p)
+	}
+	// function literals that capture no byte variable are functions of their own (internal helpers)
+	for _, l := range litDecls {
+		fd := &ast.FuncDecl{Name: ast.NewIdent(l.fn.Name()), Type: l.lit.Type, Body: l.lit.Body}
+		decls = append(decls, &fnDecl{p: l.p, rel: relOf[l.p], fd: fd, fn: l.fn, name: l.fn.Name(), strict: false, isLit: true})
 	}
 	var out []*fnDecl
 	for _, d := range decls {
@@ -352,7 +375,12 @@ func scanBodies(root string) []*fnDecl {
 			}
 		}
 		if !considered(sig) {
-			continue
+			// an internal helper that is handed objects as interface values (e.g. a proto.Message built by
+			// its caller) is translated too, so that its callers need not assume it keeps them
+			if d.strict || !hasIfaceParam(sig) {
+				continue
+			}
+			d.helperOnly = true
 		}
 		d.exceptions()
 		out = append(out, d)
@@ -372,7 +400,7 @@ func scanBodies(root string) []*fnDecl {
 			np++
 		}
 		summaries[d.key] = &summary{key: d.key, nparams: np, mut: make([]bool, np), keep: make([]bool, np),
-			res: make([]resInfo, d.fn.Type().(*types.Signature).Results().Len())}
+			res: make([]resInfo, d.fn.Type().(*types.Signature).Results().Len()), ifaceTr: !d.strict}
 	}
 	for round := 0; round < 20; round++ {
 		changed := 0
